@@ -342,7 +342,7 @@ def run(ctx):
                        "float64(t.Unix()) exact for |n| < 2^53: modelled on SpecFloat, tied by correspondence"]
     zones, wlo, whi = gen_zones(ctx)
     forbidden_gate(ctx, ["Base", "C16"])
-    ok, why = check_props(ctx, "C16/Props.v", ["C16/Harness.vo", "C16/Proofs.vo", "C16/GmtProofs.vo", "C16/DhmsProofs.vo", "C16/ZoneProofs.vo", "C16/VerbProofs.vo"])
+    ok, why = check_props(ctx, "C16/Props.v", ["C16/Harness.vo", "C16/Proofs.vo", "C16/GmtProofs.vo", "C16/DhmsProofs.vo", "C16/ZoneProofs.vo", "C16/VerbProofs.vo", "C16/DatediffProofs.vo"])
     terms, meta = [], []
     oracle_bad = []
 
@@ -514,6 +514,10 @@ def run(ctx):
         zone_cases(ctx, zones, wlo, whi, pts, case, bad)
         # ---- (G) verbs and non-numeric inputs
         verb_cases(ctx, bad)
+        # ---- (H) datediff over the whole 1..9999 span, every unit
+        datediff_cases(ctx, pts, case, bad)
+        # ---- (I) zone switched mid-process
+        zone_switch_cases(ctx, zones, wlo, whi, pts, case, bad)
 
     ctx.sample(meta[0]); ctx.sample(meta[len(meta) // 3]); ctx.sample(meta[len(meta) // 2]); ctx.sample(meta[-1])
     if not ok:
@@ -617,6 +621,128 @@ def zone_cases(ctx, zones, wlo, whi, pts, case, bad):
         for tag, r in (("--tz", r1), ("TZ", r2), ("ENV", r3)):
             if r.get("l") != r0["l"] or r.get("g") != r0["g"] or r.get("s") != r0["s"] or r.get("p") != r0["p"] or r.get("b") != str(t):
                 bad("tz-selection", input={"zone": name, "via": tag, "t": t}, observed=r, expected=r0)
+
+
+UNITS = ["d", "m", "y", "ym", "md", "yd"]
+
+
+def ref_datediff(a, b, u):
+    """spreadsheet DATEDIF on the GMT calendar dates of a and b (python reference)"""
+    if b < a:
+        return -ref_datediff(b, a, u)
+    da, db = a // 86400, b // 86400
+    y1, m1, d1, _ = ref_civil(da); y2, m2, d2, _ = ref_civil(db)
+    months = (y2 - y1) * 12 + m2 - m1 - (1 if d2 < d1 else 0)
+    years = y2 - y1 - (1 if (m2, d2) < (m1, d1) else 0)
+    def dn(y, m, d):                       # day number with time.Date-style normalisation of month 0 / day overflow
+        if m == 0:
+            y, m = y - 1, 12
+        return days_from_civil_py(y, m, 1) + d - 1
+    if u == "d": return db - da
+    if u == "m": return months
+    if u == "y": return years
+    if u == "ym": return months - 12 * years
+    if u == "md": return d2 - d1 if d2 >= d1 else dn(y2, m2, d2) - dn(y2, m2 - 1, d1)
+    anchor = y2 - 1 if (m2, d2) < (m1, d1) else y2
+    return dn(y2, m2, d2) - dn(anchor, m1, d1)
+
+
+def days_from_civil_py(y, m, d):
+    """day number of a valid date by counting whole years and months (independent of ref_civil)"""
+    y0 = y - 1
+    n = y0 * 365 + y0 // 4 - y0 // 100 + y0 // 400
+    leap = y % 4 == 0 and (y % 100 != 0 or y % 400 == 0)
+    ml = [31, 29 if leap else 28, 31, 30, 31, 30, 31, 31, 30, 31, 30, 31]
+    return n + sum(ml[:m - 1]) + d - 1 - 719162
+
+
+def datediff_cases(ctx, pts, case, bad):
+    rng = ctx.rng
+    inr = [t for t in pts if LO <= t <= HI]
+    pairs = [(LO, HI), (HI, LO), (LO, 0), (0, HI), (951782400, 1709164800), (1709164800, 951782400), (-2208988800, 7258118400)]
+    n = 250 if ctx.tier == "quick" else 6000
+    for _ in range(n):
+        a = rng.choice(inr) if rng.random() < 0.6 else rng.randint(LO, HI)
+        r = rng.random()
+        if r < 0.35:
+            b = rng.choice(inr)
+        elif r < 0.6:
+            b = rng.randint(LO, HI)                                   # usually centuries apart
+        elif r < 0.8:
+            b = a + rng.randint(-400, 400) * 86400 + rng.randint(-86400, 86400)
+        else:
+            b = a + rng.choice([-1, 1]) * rng.randint(106000, 108000) * 86400      # around the 292-year mark
+        if LO <= b <= HI:
+            pairs.append((a, b))
+    rows = [(str(a), str(b), rng.choice(UNITS)) for a, b in pairs]
+    rows += [(str(a), str(b), u) for a, b in pairs[:7] for u in UNITS]
+    res = mlr_rows(ctx, ["a", "b", "u"], rows, P(["datediff($a,$b,$u)", "datediff($a,$b,toupper($u))", 'datediff($a,$b,"d")', 'datediff($b,$a,$u)']), ["v", "vu", "d", "rev"])
+    for (a, b, u), o in zip(rows, res):
+        a, b = int(a), int(b)
+        if o["v"] != ERR:
+            case(15, a, b, str(UNITS.index(u)), o["v"], {"fn": "datediff", "a": a, "b": b, "unit": u})
+        want = ref_datediff(a, b, u)
+        how = "mlr -n put 'end{print datediff(%d, %d, \"%s\")}'" % (a, b, u)
+        if o["v"] != str(want) or o["vu"] != str(want):
+            bad("datediff-calendar", input={"a": a, "b": b, "unit": u, "dates": [ref_fmt(a, 0, 0), ref_fmt(b, 0, 0)]}, observed=[o["v"], o["vu"]], expected=str(want), how=how)
+        if o["d"] != str(b // 86400 - a // 86400):
+            bad("datediff-calendar", input={"a": a, "b": b, "unit": "d", "dates": [ref_fmt(a, 0, 0), ref_fmt(b, 0, 0)]}, observed=o["d"], expected=str(b // 86400 - a // 86400),
+                how="mlr -n put 'end{print datediff(%d, %d, \"d\")}'" % (a, b))
+        if a != b and o["rev"] != str(-want):
+            bad("datediff-calendar", input={"a": b, "b": a, "unit": u}, observed=o["rev"], expected=str(-want), how="mlr -n put 'end{print datediff(%d, %d, \"%s\")}'" % (b, a, u))
+    ctx.dist("datediff_cases", len(rows))
+
+
+def zone_switch_cases(ctx, zones, wlo, whi, pts, case, bad):
+    """one mlr process, the zone is changed per record through ENV["TZ"] (after --tz / TZ / nothing at start-up);
+    functions without an explicit zone must follow the zone named NOW, exactly like the explicit-zone forms"""
+    rng = ctx.rng
+    margin = 5 * 86400
+    ts = [t for t in pts if wlo + margin <= t <= whi - margin]
+    fmt = "%Y-%m-%d %H:%M:%S"
+    exprs = ["sec2localtime($t)", "localtime2sec(sec2localtime($t))", 'strptime_local(sec2localtime($t), "%s")' % fmt, "localtime2gmt(sec2localtime($t))",
+             'strftime_local($t, "%s")' % fmt, "sec2localdate($t)", "gmt2localtime(sec2gmt($t))",
+             "sec2localtime($t, 0, $z)", "localtime2sec(sec2localtime($t, 0, $z), $z)", "sec2gmt(localtime2sec(sec2localtime($t, 0, $z), $z))", "sec2localdate($t, $z)",
+             "sec2gmt($t)", "gmt2sec(sec2gmt($t))", 'strptime(sec2gmt($t), "%Y-%m-%dT%H:%M:%SZ")', "localtime2sec($w)", "localtime2sec($w, $z)"]
+    names = ["l", "p", "q", "lg", "sfl", "ld", "g2l", "le", "pe", "lge", "lde", "g", "gp", "gq", "pw", "pwe"]
+    prog = 'ENV["TZ"] = $z; ' + P(exprs)
+    jobs, allrows = [], []
+    starts = [([], None), (["--tz", "Asia/Tokyo"], None), ([], {"TZ": "America/New_York"}), (["--tz", "Asia/Kolkata"], {"TZ": "Europe/London"})]
+    for args, env in starts:
+        rows = []
+        order = list(range(len(zones)))
+        for rnd in range(3 if ctx.tier == "quick" else 20):
+            rng.shuffle(order)
+            for zi in order:
+                rows.append((str(rng.choice(ts)), zones[zi]["name"], "2023-07-01 12:00:00"))
+                if rng.random() < 0.3:                      # the same zone twice in a row, then back
+                    rows.append((str(rng.choice(ts)), zones[zi]["name"], "2001-01-15 00:30:00"))
+        allrows.append(rows)
+        jobs.append(((["t", "z", "w"], rows, prog, names), {"args": args, "env": env}))
+    results = par(ctx, jobs)
+    zidx = {z["name"]: i for i, z in enumerate(zones)}
+    n = 0
+    for (args, env), rows, res in zip(starts, allrows, results):
+        prev = None
+        for (t, zn, w), o in zip(rows, res):
+            n += 1
+            t = int(t)
+            case(12, t, zidx[zn], o["l"], "", {"fn": "sec2localtime after ENV[TZ] switch", "zone": zn, "t": t, "start": args or env})
+            if o["p"] != ERR:
+                case(13, int(o["p"]), zidx[zn], o["l"], "", {"fn": "localtime2sec after ENV[TZ] switch", "zone": zn, "text": o["l"]})
+            if o["pw"] != ERR:
+                case(13, int(o["pw"]), zidx[zn], w, "", {"fn": "localtime2sec after ENV[TZ] switch", "zone": zn, "text": w})
+            info = {"zone_now": zn, "zone_before": prev, "t": t, "startup": {"args": args, "env": env}}
+            if (o["l"], o["sfl"], o["g2l"], o["ld"]) != (o["le"], o["le"], o["le"], o["lde"]):
+                bad("tz-switch-format", input=info, observed={k: o[k] for k in ("l", "sfl", "g2l", "ld")}, expected={"explicit-zone": o["le"], "date": o["lde"]})
+            if (o["p"], o["q"], o["pw"]) != (o["pe"], o["pe"], o["pwe"]) or o["lg"] != o["lge"]:
+                bad("tz-switch-parse", input=dict(info, text=o["l"], text2=w), observed={k: o[k] for k in ("p", "q", "lg", "pw")},
+                    expected={"localtime2sec(text, zone)": o["pe"], "localtime2gmt": o["lge"], "localtime2sec(text2, zone)": o["pwe"]},
+                    how="mlr -n put 'end{ENV[\"TZ\"]=\"%s\"; x = localtime2sec(\"%s\"); ENV[\"TZ\"]=\"%s\"; print localtime2sec(\"%s\")}'  (expected %s)" % (prev or "Asia/Tokyo", w, zn, w, o["pwe"]))
+            if o["gp"] != str(t) or o["gq"] != str(t) or o["g"] != ref_fmt(t, 0, 0):
+                bad("tz-affects-gmt-functions", input=info, observed={k: o[k] for k in ("g", "gp", "gq")}, expected=[ref_fmt(t, 0, 0), t])
+            prev = zn
+    ctx.dist("zone_switch_records", n)
 
 
 def verb_cases(ctx, bad):
